@@ -578,6 +578,7 @@ cleanup:
 
 static int asyncClient_calculateRequestId(KSI_AsyncClient *c, KSI_uint64_t *id, KSI_uint64_t *offset) {
 	int res = KSI_UNKNOWN_ERROR;
+	size_t scanned = 0;
 
 	if (c == NULL || c->reqCache == NULL || id == NULL || offset == NULL) {
 		res = KSI_INVALID_ARGUMENT;
@@ -585,8 +586,10 @@ static int asyncClient_calculateRequestId(KSI_AsyncClient *c, KSI_uint64_t *id, 
 	}
 
 	do {
-		/* Check if the cache is full. */
-		if ((c->options[KSI_ASYNC_OPT_REQUEST_CACHE_SIZE]) == (c->pending + c->received + 1)) {
+		/* Check if the cache is full. The counters also cover a cached configuration request that does not
+		 * occupy a slot, so make sure the search ends after every slot has been visited. */
+		if ((c->options[KSI_ASYNC_OPT_REQUEST_CACHE_SIZE]) == (c->pending + c->received + 1) ||
+				scanned++ == c->options[KSI_ASYNC_OPT_REQUEST_CACHE_SIZE]) {
 			res = KSI_ASYNC_REQUEST_CACHE_FULL;
 			goto cleanup;
 		}
